@@ -556,6 +556,17 @@ class Exec:
                 return 0, a[0], None
             if len(a) == 2 or (len(a) == 3 and conc_int(a[2]) == 1):
                 return a[0], a[1], None
+            stp = conc_int(a[2]) if len(a) == 3 else None
+            if stp is not None and stp > 1:
+                # range(lo, hi, s), s > 1 concrete: the k-th element is lo + k*s, ceil((hi-lo)/s) elements
+                lo_, hi_ = a[0], a[1]
+                cl, ch = conc_int(lo_), conc_int(hi_)
+                if cl is not None and ch is not None:
+                    cnt = len(range(cl, ch, stp))
+                else:
+                    d = to_int(hi_) - to_int(lo_)
+                    cnt = z3.If(d > 0, (d + (stp - 1)) / stp, z3.IntVal(0))
+                return 0, cnt, (lambda k, s, lo_=lo_, stp=stp: _add(lo_, k * stp) if not is_sym(k) else to_int(lo_) + k * stp)
             raise Unsupported('range with step')
         if isinstance(it, ast.Call) and isinstance(it.func, ast.Name) and it.func.id == 'enumerate':
             lo, hi, f = self.iter_info(it.args[0], st, node)
